@@ -6,6 +6,7 @@
 //!   set-clear-fire        notify_after, clear(id), the shell still answers the original request
 //!   set-clear-ack         notify_after, clear(id), the shell answers the original request with Cleared
 //!   set-fire-clear        notify_after, the shell answers, and THEN the app clears the (finished) timer's id
+//!   set-clear-same-update notify_after and clear(id) within one update: the request future is dropped without ever being polled
 use std::alloc::{GlobalAlloc, Layout, System};
 use std::sync::atomic::{AtomicIsize, Ordering};
 
@@ -43,6 +44,8 @@ struct App;
 #[derive(Serialize, Deserialize)]
 enum Event {
     Start,
+    /// a timer set and cleared within one update: its request future is created but never polled
+    StartAndCancel,
     Cancel,
     Elapsed(TimeResponse),
 }
@@ -64,6 +67,10 @@ impl crux_core::App for App {
     fn update(&self, event: Event, model: &mut Model, caps: &Capabilities) -> Command<Effect, Event> {
         match event {
             Event::Start => model.timer = Some(caps.time.notify_after(std::time::Duration::from_millis(300), Event::Elapsed)),
+            Event::StartAndCancel => {
+                let id = caps.time.notify_after(std::time::Duration::from_millis(300), Event::Elapsed);
+                caps.time.clear(id);
+            }
             Event::Cancel => {
                 if let Some(id) = model.timer.take() {
                     caps.time.clear(id);
@@ -84,9 +91,18 @@ enum Kind {
     SetClearFire,
     SetClearAck,
     SetFireClear,
+    SetClearSameUpdate,
 }
 
 fn exchange(core: &Core<App>, kind: Kind) {
+    if let Kind::SetClearSameUpdate = kind {
+        let before = core.view();
+        let effects = core.process_event(Event::StartAndCancel);
+        // the timer reports Cleared on its first poll; only the Clear notification reaches the shell
+        assert_eq!(effects.len(), 1, "only the Clear notification");
+        assert_eq!(core.view(), before + 1, "the exchange concludes the timer exactly once");
+        return;
+    }
     let mut effects = core.process_event(Event::Start);
     let Effect::Time(mut timer) = effects.remove(0);
     let TimeRequest::NotifyAfter { id, .. } = timer.operation else { panic!("expected NotifyAfter") };
@@ -101,6 +117,7 @@ fn exchange(core: &Core<App>, kind: Kind) {
             let answer = if matches!(kind, Kind::SetClearFire) { TimeResponse::DurationElapsed { id } } else { TimeResponse::Cleared { id } };
             core.resolve(&mut timer, answer).expect("resolves");
         }
+        Kind::SetClearSameUpdate => unreachable!(),
         Kind::SetFireClear => {
             core.resolve(&mut timer, TimeResponse::DurationElapsed { id }).expect("resolves");
             let effects = core.process_event(Event::Cancel);
@@ -132,7 +149,7 @@ fn scenario(kind: Kind) -> String {
 
 fn main() {
     std::panic::set_hook(Box::new(|_| {}));
-    for (name, kind) in [("set-fire", Kind::SetFire), ("set-clear-fire", Kind::SetClearFire), ("set-clear-ack", Kind::SetClearAck), ("set-fire-clear", Kind::SetFireClear)] {
+    for (name, kind) in [("set-fire", Kind::SetFire), ("set-clear-fire", Kind::SetClearFire), ("set-clear-ack", Kind::SetClearAck), ("set-fire-clear", Kind::SetFireClear), ("set-clear-same-update", Kind::SetClearSameUpdate)] {
         println!("{name} REAL {} | EXPECT bounded", scenario(kind));
     }
 }
